@@ -42,6 +42,7 @@ type Source struct {
 	DataErrs  int
 	quiet       int
 	QuietBursts int
+	fruitless   int
 	Handed   []byte // every byte actually handed to the reader
 	active   *Interruption
 	silentTo time.Time
@@ -49,6 +50,23 @@ type Source struct {
 	Reads, EOFs, Timeouts, Fatals, ZeroN int
 	EndEOFs                              int
 	Marks                                []int // offsets at which chunk boundaries fell
+}
+
+// pollCost: a read that finds nothing takes time.  From the fourth consecutive
+// fruitless poll on, each costs simulated time, doubling from 10 µs to 1 s, so
+// that a caller which re-polls without sleeping still sees its clock advance
+// (as it would in real time) instead of spinning for ever at one instant.
+func (r *Source) pollCost() {
+	r.fruitless++
+	if r.fruitless <= 3 {
+		return
+	}
+	d := 10 * time.Microsecond << uint(min(r.fruitless-4, 17))
+	if d > time.Second {
+		d = time.Second
+	}
+	time.Sleep(d)
+	rt.Yield("source.Read (nothing there)")
 }
 
 func (r *Source) Read(p []byte) (int, error) {
@@ -65,6 +83,7 @@ func (r *Source) Read(p []byte) (int, error) {
 			}
 			if r.active.Silence < 0 || time.Now().Before(r.silentTo) || !r.active.fired {
 				r.active.fired = true
+				r.pollCost()
 				if r.active.Timeout {
 					r.Timeouts++
 					return 0, ErrTimeout
@@ -86,8 +105,10 @@ func (r *Source) Read(p []byte) (int, error) {
 	}
 	if r.Pos >= len(r.Data) {
 		r.EndEOFs++
+		r.pollCost()
 		return 0, io.EOF
 	}
+	r.fruitless = 0
 	if r.quiet > 0 {
 		// inside a burst of consecutive empty reads (a quiet line)
 		r.quiet--
